@@ -180,6 +180,14 @@ func matchKnown(ks []known, f *Failure) string {
 }
 
 func symptomMatch(pat, s string) bool {
+	if strings.Contains(pat, "|") {
+		for _, alt := range strings.Split(pat, "|") {
+			if symptomMatch(alt, s) {
+				return true
+			}
+		}
+		return false
+	}
 	if strings.HasSuffix(pat, "*") {
 		return strings.HasPrefix(s, strings.TrimSuffix(pat, "*"))
 	}
@@ -321,6 +329,16 @@ func Main(t *testing.T, s Spec) {
 			st.mu.Lock()
 			st.Excluded[id]++
 			st.mu.Unlock()
+			return
+		}
+		if os.Getenv("VF_SURVEY") != "" && os.Getenv("VF_FAIL_ON") != f.Symptom+"|"+strings.Join(f.Regions, ",") {
+			// development aid: count failures per symptom and keep searching (never used by registered commands)
+			st.mu.Lock()
+			st.Counters["survey:"+f.Symptom+" regions="+strings.Join(f.Regions, ",")]++
+			st.mu.Unlock()
+			if os.Getenv("VF_SURVEY") == "2" {
+				fmt.Printf("SURVEY %s: %s\n", f.Symptom, f.Message)
+			}
 			return
 		}
 		st.mu.Lock()
